@@ -6,10 +6,10 @@ EXTENDS Ring, Json
 Arr(f) == [i \in 1 .. Cap |-> f[i - 1]]
 St  == [rpos |-> rpos, wpos |-> wpos, used |-> used, produced |-> produced,
         consumed |-> consumed, tags |-> Arr(tags), mem |-> Arr(mem),
-        wwin |-> wwin, rwin |-> rwin, poisoned |-> poisoned]
+        wwin |-> wwin, rwin |-> rwin, wstale |-> wstale, poisoned |-> poisoned]
 StP == [rpos |-> rpos', wpos |-> wpos', used |-> used', produced |-> produced',
         consumed |-> consumed', tags |-> Arr(tags'), mem |-> Arr(mem'),
-        wwin |-> wwin', rwin |-> rwin', poisoned |-> poisoned']
+        wwin |-> wwin', rwin |-> rwin', wstale |-> wstale', poisoned |-> poisoned']
 Edge(a) == PrintT(<<"EDGE", ToJson([from |-> St, act |-> a, to |-> StP])>>)
 
 NextE ==
@@ -23,6 +23,9 @@ NextE ==
   \/ \E m \in 0 .. Cap : Consume(m) /\ Edge([op |-> "consume", m |-> m])
   \/ DropR /\ Edge([op |-> "dropr"])
   \/ \E m \in 1 .. (Cap + 1) : ConsumeRefused(m) /\ Edge([op |-> "consume_refused", m |-> m])
+  \/ AcqW2 /\ Edge([op |-> "acqw2"])
+  \/ DropStale /\ Edge([op |-> "dropstale"])
+  \/ \E n \in 1 .. Cap : StaleCommitRefused(n) /\ Edge([op |-> "stale_commit_refused", n |-> n])
 
 SpecE == Init /\ [][NextE]_vars
 =============================================================================
